@@ -258,8 +258,8 @@ OneCallSizes(b) == Fits({SizeOf(c, b) : c \in OClasses}, b)
 PreparedSizes(b) == {SizeOf(c, b) : c \in PClasses}
 Types == {Text, Binary, Close, Ping, Pong, BadType}
 
-Apply(r, st, via) ==
-  LET d == Dec(r.out, 1, dcur, dclosed, <<>>) IN
+\* (\E over a singleton set: makes TLC evaluate the result record of the call once instead of once per use)
+Apply(r0, st, via) == \E r \in {r0} : \E d \in {Dec(r.out, 1, dcur, dclosed, <<>>)} :
   /\ dcur' = d.cur /\ dclosed' = d.closed
   /\ mon' = [ok |-> d.ok, match |-> (d.dl = Expects(r.claims))]
   /\ h' = r.s.h /\ wtype' = r.s.wtype /\ ftype' = r.s.ftype /\ pos' = r.s.pos /\ rsv' = r.s.rsv
